@@ -100,10 +100,17 @@ private:
 
                 // Two roots computed from the quadratic equation
                 const Complex nu = m_ritz_val[i];
+                const Complex sqrt_disc = sqrt(Scalar(1) - Scalar(4) * m_sigmai * m_sigmai * (nu * nu));
                 const Complex root_part1 = m_sigmar + Scalar(0.5) / nu;
-                const Complex root_part2 = Scalar(0.5) * sqrt(Scalar(1) - Scalar(4) * m_sigmai * m_sigmai * (nu * nu)) / nu;
+                const Complex root_part2 = Scalar(0.5) * sqrt_disc / nu;
                 const Complex root1 = root_part1 + root_part2;
-                const Complex root2 = root_part1 - root_part2;
+                // The second root is root_part1 - root_part2, but both parts have size 1 / (2 |nu|) and cancel when
+                // nu is small, i.e. for an eigenvalue close to sigmar (nu = 0 when lambda = sigmar): the difference
+                // then carries an absolute error of eps / |nu|. Use the product of the roots instead,
+                // (root1 - sigmar) * (root2 - sigmar) = sigmai^2, which gives
+                //     root2 = sigmar + 2 * sigmai^2 * nu / (1 + sqrt(1 - 4 * nu^2 * sigmai^2))
+                // without any cancellation (the principal square root has a non-negative real part)
+                const Complex root2 = m_sigmar + (Scalar(2) * m_sigmai * m_sigmai) * nu / (Scalar(1) + sqrt_disc);
 
                 // Test roots
                 Scalar err1 = Scalar(0), err2 = Scalar(0);
